@@ -40,7 +40,7 @@ EXPECT_PROBES = ["pointer_unusable", "cas_conflict", "failed_pointer_write",
 POINTERS = ["missing", "empty", "whitespace", "noise", "badutf8", "legacy_nothing", "named_missing_low",
             "named_missing_high", "trailing_newline", "trailing_spaces", "stale", "legacy_layout", "intact",
             "unicode_digit", "circled_digit", "huge_number", "arabic_digits", "signed_number", "name_with_nul",
-            "name_uppercase_hex", "name_with_path"]
+            "name_uppercase_hex", "name_with_path", "name_huge_version", "name_unicode_version"]
 AFTER = ["load", "create_other", "append", "gc", "reopen"]
 
 
@@ -169,6 +169,10 @@ def _damage(w, ptr, latest_name, latest_ver, committed, view, tnow):
         _write_pointer(w, b"v1-DEADBEEF.metadata.json", tnow)
     elif ptr == "name_with_path":
         _write_pointer(w, b"../v1-deadbeef.metadata.json", tnow)
+    elif ptr == "name_huge_version":
+        _write_pointer(w, b"v" + b"9" * 5000 + b"-deadbeef.metadata.json", tnow)   # version beyond the int() digit limit
+    elif ptr == "name_unicode_version":
+        _write_pointer(w, "v\u00b2-deadbeef.metadata.json".encode("utf-8"), tnow)    # \d matches it, int() rejects it
     elif ptr == "named_missing_low":
         _write_pointer(w, b"v0-deadbeef.metadata.json", tnow)
     elif ptr == "named_missing_high":
